@@ -55,8 +55,10 @@ def data_table(names, L, which, seed):
             out[n] = [0.5 + 0.25 * ((i * 3 + p * 5) % 7) for p in range(L)]
         elif which == 1:
             out[n] = [2.0 - 0.125 * ((i * 5 + p * 3) % 11) for p in range(L)]
-        else:
+        elif which == 2:
             out[n] = [round(rng.uniform(0.25, 3.0), 3) for _ in range(L)]
+        else:   # both signs
+            out[n] = [round(rng.choice([-1, 1]) * rng.uniform(0.25, 3.0), 3) for _ in range(L)]
     return out
 
 
